@@ -1,0 +1,8 @@
+//go:build verif
+
+package raftconn
+
+// VerifServeChannels starts the node's raft loop (serveChannels) alone, without the transport goroutine that
+// InitAndStartNode starts next to it: the C05 verification harness plays the transport and takes the node's
+// outgoing messages from the exported Messages channel itself. Thin wrapper, no behaviour.
+func (n *RaftNode) VerifServeChannels() { go n.serveChannels() }
